@@ -114,6 +114,11 @@ def generate(ck):
                         descs.append({"cls": cls, "cfg": 0, "seq": seq, "stutter": k})
                         descs.append({"cls": cls, "cfg": 0, "seq": seq, "stutter": k, "tight": True, "nt_scale": 1})
                         descs.append({"cls": cls, "cfg": 0, "seq": seq, "stutter": k, "tight": True, "nt_scale": 10})
+    for cfg in (0, 1):
+        for ed in ("m_i", "alpha"):
+            for before in (["simA"], ["simA", "rf", "interp"], ["simB", "rfd"]):
+                for after in (["simA", "rf", "interp"], ["simC", "rfd", "interp"], ["simA", "interp"]):
+                    descs.append({"cls": "single", "cfg": cfg, "seq": before + after, "before": before, "after": after, "edit": ed, "extension": True})
     # extension outside the property's alphabet
     ext_ops = ("simS", "simA", "simC", "rf", "interp")
     for n in range(2, L):
@@ -329,9 +334,57 @@ def _tight_case(ck, desc):
     return True, {"seq": seq}
 
 
+def _fluid_edit_case(ck, desc):
+    """Extension (the fluid object is not in the property's alphabet, but it is what a reservoir is made of): the
+    fluid a reservoir holds is USED by a run, then one of its public attributes is re-assigned (another initial
+    pressure's m_i, a corrected diffusivity look-up), then the reservoir is simulated again. It must equal a fresh
+    reservoir on a FRESH fluid that got the same re-assignment before its only run - anything remembered on the
+    fluid object (which a fresh reservoir handed the same fluid would inherit) shows here."""
+    from bluebonnet.flow import FlowProperties, SinglePhaseReservoir
+
+    c = CONFIGS[desc["cfg"]]
+
+    def new_fluid():
+        with warnings.catch_warnings():
+            warnings.simplefilter("ignore")
+            return FlowProperties(tables.from_desc(c["table"]), c["p_i"])
+
+    def edit(fl):
+        if desc["edit"] == "m_i":
+            fl.m_i = fl.m_scaled_func(0.75 * c["p_i"])
+        else:
+            old = fl.alpha
+            fl.alpha = lambda m, old=old: old(m) * (1.0 + 0.5 * np.asarray(m, dtype=float))
+
+    used = new_fluid()
+    res = SinglePhaseReservoir(c["nx"], c["p_f"], c["p_i"], used)
+    with np.errstate(all="ignore"), warnings.catch_warnings():
+        warnings.simplefilter("ignore")
+        for op in desc["before"]:
+            _apply(res, op, desc["cfg"])
+        edit(used)
+        got = [_apply(res, op, desc["cfg"]) for op in desc["after"]]
+        got_state = _state(res)
+        fresh_fluid = new_fluid()
+        edit(fresh_fluid)
+        ref = SinglePhaseReservoir(c["nx"], c["p_f"], c["p_i"], fresh_fluid)
+        want = [_apply(ref, op, desc["cfg"]) for op in desc["after"]]
+        want_state = _state(ref)
+    ck.count("calls_logged", len(desc["before"]) + len(desc["after"]))
+    ck.count("fresh_replays")
+    ck.count("fluid_attribute_edits_between_runs")
+    bad = [f"result of {op}" for op, a, b in zip(desc["after"], got, want) if not _same_result(a, b)]
+    bad += [k for k in ("time", "pseudopressure") if not _same(got_state[k], want_state[k])]
+    if bad:
+        ck.violation("matches-fresh-object", {"differs": bad, "history": desc["before"] + [f"fluid.{desc['edit']} re-assigned"] + desc["after"], "reference": "fresh reservoir on a fresh fluid with the same re-assignment"}, desc)
+    return True, {"edit": desc["edit"]}
+
+
 def _run_case(ck, desc):
     if desc.get("tight"):
         return _tight_case(ck, desc)
+    if desc.get("edit"):
+        return _fluid_edit_case(ck, desc)
     cls, cfg, seq = desc["cls"], desc["cfg"], desc["seq"]
     obj = _fresh(cls, cfg)
     log = []
